@@ -42,7 +42,13 @@ func (x *Exec) query(o *Obligation, wantModel bool) string {
 		b.WriteString("(set-option :produce-models true)\n")
 	}
 	b.WriteString(x.prelude())
-	for _, a := range x.asserts[:o.Prefix] {
+	if o.Reach == nil || (o.Goal == nil && !o.Cover) {
+		panic("obligation with nil reach/goal: " + o.Name)
+	}
+	for i, a := range x.asserts[:o.Prefix] {
+		if a == nil {
+			panic(fmt.Sprintf("nil background assertion %d for %s", i, o.Name))
+		}
 		b.WriteString("(assert ")
 		b.WriteString(a.String())
 		b.WriteString(")\n")
@@ -214,6 +220,14 @@ func solveAll(items []*oblItem, outDir string, opts solveOpts, par int) {
 	for _, it := range items {
 		it.x.prelude() // built once per function, single-threaded (it interns literals)
 	}
+	// render all queries single-threaded (Term.String caches, and the prelude interns literals)
+	for _, it := range items {
+		file := filepath.Join(outDir, sanitizeFile(it.o.Name)+".smt2")
+		text := it.x.query(it.o, false)
+		os.WriteFile(file, []byte(text), 0o644)
+		it.o.SMTFile = file
+		it.size = len(text)
+	}
 	var wg sync.WaitGroup
 	sem := make(chan struct{}, par)
 	for _, it := range items {
@@ -223,12 +237,7 @@ func solveAll(items []*oblItem, outDir string, opts solveOpts, par int) {
 		go func() {
 			defer wg.Done()
 			defer func() { <-sem }()
-			file := filepath.Join(outDir, sanitizeFile(it.o.Name)+".smt2")
-			text := it.x.query(it.o, false)
-			os.WriteFile(file, []byte(text), 0o644)
-			it.o.SMTFile = file
-			it.size = len(text)
-			solveOne(it.o, file, opts)
+			solveOne(it.o, it.o.SMTFile, opts)
 		}()
 	}
 	wg.Wait()
